@@ -95,7 +95,7 @@ func coqCase(in *Input, obs *Observed, roots []*Decl) string {
 		d := roots[i]
 		has := v.HasCopy && v.HasInto && v.Panic == ""
 		rs = append(rs, fmt.Sprintf("mk_root %s %s %s %s %s %s", core.Hex(v.Type), core.CoqBool(has), core.CoqBool(v.NilNil),
-			core.CoqBool(v.Equal && v.IntoEqual), core.CoqBool(v.Unchanged && v.IntoUnchanged),
+			core.CoqBool(v.Equal && v.IntoEqual), core.CoqBool(v.Unchanged && v.IntoUnchanged && v.TPUnchanged),
 			core.CoqBool(v.HasObject == d.Ifaces && v.ObjectOK)))
 	}
 	complete := obs.Compiles && obs.BuildError == "" && len(obs.Roots) == len(roots)
